@@ -373,9 +373,11 @@ func (p *provider) updateStatus(
 
 	modRS.Status.ActiveIn = x.IfThenElse(len(modRS.Status.ActiveIn) == 0, "0/0", modRS.Status.ActiveIn)
 
-	usedBy := strings.Split(modRS.Status.ActiveIn, "/")
-	loadedBy, _ := strconv.Atoi(usedBy[0])
-	matchedBy, _ := strconv.Atoi(usedBy[1])
+	// the status is maintained by all heimdall instances and could be modified by anyone
+	// having access to the resource. So, it cannot be assumed to be well-formed
+	loaded, matched, _ := strings.Cut(modRS.Status.ActiveIn, "/")
+	loadedBy, _ := strconv.Atoi(loaded)
+	matchedBy, _ := strconv.Atoi(matched)
 
 	modRS.Status.ActiveIn = fmt.Sprintf("%d/%d", loadedBy+usageIncrement, matchedBy+matchIncrement)
 
@@ -390,10 +392,12 @@ func (p *provider) updateStatus(
 		return
 	}
 
-	// if there is an error, it is always of the below type
 	var statusErr *errors2.StatusError
+	if !errors.As(err, &statusErr) {
+		p.l.Warn().Err(err).Msg("Failed updating RuleSet status")
 
-	errors.As(err, &statusErr)
+		return
+	}
 
 	switch statusErr.ErrStatus.Code {
 	case http.StatusNotFound:
